@@ -171,6 +171,7 @@ type c06E2E struct {
 
 	parseFails  int
 	histSamples int
+	refSamples  int
 }
 
 type c06SyncBuf struct {
@@ -596,6 +597,31 @@ func TestVerifC06EndToEnd(t *testing.T) {
 		for i := kit.Tier(0, 3000); i > 0; i-- {
 			one(c06HistoryKinds[hrng.Intn(len(c06HistoryKinds))], c06HistoryAges[hrng.Intn(len(c06HistoryAges))], hmodes[hrng.Intn(len(hmodes))],
 				sources[hrng.Intn(len(sources))], hrng.Intn(4) == 0)
+		}
+	}
+
+	// "refused" class: the admitted literal has no listener, other addresses of the name have
+	// (zz_verif_c06_refused_test.go)
+	{
+		rrng := kit.Rand("c06/e2e/refused")
+		rmodes := []string{"blocklist", "allowlist"}
+		rn := 0
+		one := func(kind, mode string, src pb.RegistrationSource, dual bool) {
+			b := make([]byte, 32)
+			rrng.Read(b)
+			e.runRefused(kind, mode, src, dual, b)
+			rn++
+		}
+		for rep := 0; rep < 3; rep++ {
+			for _, kind := range c06RefusedKinds {
+				for _, mode := range rmodes {
+					one(kind, mode, sources[rn%len(sources)], rn%5 == 4)
+				}
+			}
+		}
+		rec.Exhaustive(fmt.Sprintf("refused class: every kind (%d) × policy modes %v, 3 times", len(c06RefusedKinds), rmodes))
+		for i := kit.Tier(0, 3000); i > 0; i-- {
+			one(c06RefusedKinds[rrng.Intn(len(c06RefusedKinds))], rmodes[rrng.Intn(len(rmodes))], sources[rrng.Intn(len(sources))], rrng.Intn(4) == 0)
 		}
 	}
 
